@@ -178,12 +178,16 @@ impl World for WatermarkWorld {
         // lateness bounds of a second and more take other paths through `Duration` than 0..10 ms do.
         // Periodic emission is tied to the processing clock and keeps its scale.
         let scale = if matches!(wm, Wm::Periodic(_)) { 1 } else { *rng.pick(&[1u64, 1, 1, 1, 7, 250, 1000, 3_600_000]) };
+        // at the larger scales one run in three adds an odd number of milliseconds to the bounds, so that they
+        // are not all multiples of 250 (a bound of 1140 ms converts differently from one of 1250 ms when it is
+        // taken through floating-point seconds)
+        let odd = |rng: &mut Rng| if scale >= 250 && rng.chance(1, 3) { rng.below(1000) } else { 0 };
         let wm = match wm {
-            Wm::Bounded(d) => Wm::Bounded(d * scale),
+            Wm::Bounded(d) => Wm::Bounded(d * scale + odd(rng)),
             w => w,
         };
         let late = match late {
-            Late::Allowed(m) => Late::Allowed(m * scale),
+            Late::Allowed(m) => Late::Allowed(m * scale + odd(rng)),
             l => l,
         };
         let arrivals: Vec<Arrival> = arrivals;
